@@ -2,6 +2,8 @@
 mod alloc;
 mod anyshape;
 mod c01;
+mod c02;
+mod refcodec;
 mod c03;
 mod c05;
 mod c06;
@@ -24,9 +26,12 @@ fn main() {
         std::process::exit(2);
     }
     // silence the default panic message: panics are caught and reported per case
-    std::panic::set_hook(Box::new(|_| {}));
+    if std::env::var_os("VERIF_PANIC").is_none() {
+        std::panic::set_hook(Box::new(|_| {}));
+    }
     let code = match args[1].as_str() {
         "c01" => c01::run(&args[2..]),
+        "c02" => c02::run(&args[2..]),
         "c06" => c06::run(&args[2..]),
         "c05" => c05::run(&args[2..]),
         "c03" => c03::run(&args[2..]),
